@@ -988,8 +988,8 @@ void h_visit_scalars(void) {
     case 3: { struct JsonString js; memset(&js, 0, sizeof js); js.data_ = text; js.size_ = in_size(); js.ownership_ = in_bool();
       r = JsonSerializer_LogWriter__visit__JsonString(&ser, js);
       CHECK(g_ev == 4 && g_ev_calls == 1 && g_lw_calls == 0 && g_ev_p == text && g_ev_n == js.size_, "JsonString: written by writeString(p, size) - sized, NULs included"); break; }
-    case 4: { struct SerializedValue_char_p raw; memset(&raw, 0, sizeof raw); raw.data_ = text; raw.size_ = in_size();
-      r = JsonSerializer_LogWriter__visit__SerializedValue_char_p(&ser, raw);
+    case 4: { struct SerializedValue_constchar_p raw; memset(&raw, 0, sizeof raw); raw.data_ = text; raw.size_ = in_size();
+      r = JsonSerializer_LogWriter__visit__SerializedValue_constchar_p(&ser, raw);
       CHECK(g_ev_calls == 0 && g_lw_calls == 1 && g_lw_s == (unsigned char *)text && g_lw_n == raw.size_, "raw values are written verbatim: exactly size bytes from data"); break; }
     case 5: { _Bool b = in_bool(); r = JsonSerializer_LogWriter__visit___Bool(&ser, b);
       CHECK(b ? LITERAL("true") : LITERAL("false"), "booleans are the literals true / false"); break; }
@@ -1252,7 +1252,7 @@ void h_text_object(void) { text_both(1); COVER(g_tlen == 0); COVER(g_tlen == 4);
 enum { AV_NONE, AV_FLOAT, AV_DOUBLE, AV_ARRAY, AV_OBJECT, AV_STRING, AV_RAW, AV_LONG, AV_ULONG, AV_BOOL, AV_NULL, AV_PARRAY, AV_POBJECT };
 static int g_av; static unsigned g_av_calls;
 static float g_av_f32; static double g_av_f64; static void *g_av_ptr; static struct JsonString g_av_str;
-static struct SerializedValue_char_p g_av_raw; static long g_av_i64; static unsigned long g_av_u64; static _Bool g_av_bool;
+static struct SerializedValue_constchar_p g_av_raw; static long g_av_i64; static unsigned long g_av_u64; static _Bool g_av_bool;
 static void *g_av_self; static unsigned long g_av_ret;
 static union VariantExtension g_ext; static unsigned int g_ext_id; static unsigned g_ext_calls; static struct ResourceManager *g_rm;
 #define AV(code) do { g_av = (code); g_av_calls++; g_av_self = self; return g_av_ret; } while (0)
@@ -1263,7 +1263,7 @@ unsigned long JsonSerializer_LogWriter__visit__ObjectData_r(struct JsonSerialize
 unsigned long PrettyJsonSerializer_LogWriter__visit__ArrayData_r(struct PrettyJsonSerializer_LogWriter *self, struct ArrayData *array) { g_av_ptr = array; AV(AV_PARRAY); }
 unsigned long PrettyJsonSerializer_LogWriter__visit__ObjectData_r(struct PrettyJsonSerializer_LogWriter *self, struct ObjectData *object) { g_av_ptr = object; AV(AV_POBJECT); }
 unsigned long JsonSerializer_LogWriter__visit__JsonString(struct JsonSerializer_LogWriter *self, struct JsonString value) { g_av_str = value; AV(AV_STRING); }
-unsigned long JsonSerializer_LogWriter__visit__SerializedValue_char_p(struct JsonSerializer_LogWriter *self, struct SerializedValue_char_p value) { g_av_raw = value; AV(AV_RAW); }
+unsigned long JsonSerializer_LogWriter__visit__SerializedValue_constchar_p(struct JsonSerializer_LogWriter *self, struct SerializedValue_constchar_p value) { g_av_raw = value; AV(AV_RAW); }
 unsigned long JsonSerializer_LogWriter__visit__long(struct JsonSerializer_LogWriter *self, long value) { g_av_i64 = value; AV(AV_LONG); }
 unsigned long JsonSerializer_LogWriter__visit__ulong(struct JsonSerializer_LogWriter *self, unsigned long value) { g_av_u64 = value; AV(AV_ULONG); }
 unsigned long JsonSerializer_LogWriter__visit___Bool(struct JsonSerializer_LogWriter *self, _Bool value) { g_av_bool = value; AV(AV_BOOL); }
